@@ -21,7 +21,8 @@ NonItems == {<<"nohdr">>, <<"section">>, <<"nocomment">>}
 
 TBegin ==
   /\ IsEv("reset")
-  /\ Begin(<<R.parser, R.lit, R.flag, R.input>>, R.input, R.limit, R.faulty, R.lines, R.ref,
+  \* renderings of one abstract value (C07) share a group: their reference is the canonical rendering
+  /\ Begin(IF R.group # "" THEN <<R.parser, R.lit, R.flag, R.group>> ELSE <<R.parser, R.lit, R.flag, R.input>>, R.input, R.limit, R.faulty, R.lines, R.ref,
            R.parser \in {"aig", "aig_parse"})
 
 Skipping == skip /\ l <= Len(Rec) /\ R.ev # "reset" /\ l' = l + 1 /\ UNCHANGED cvars
